@@ -72,6 +72,8 @@ L_msg(ev) == ev.what = "msg" =>
                    /\ Get(phase, ev.obj, "none") = "connected"                               \* only that client's messages, only while connected
                    /\ Get(objAt, ev.a, 0) = ev.obj
                    /\ ev.tag = ev.a                                                          \* payload sent by the client that owns that address (driver tags payloads)
+\* C10: the token a client was announced with at connect is the token it carries in every later event (nothing re-keys or re-numbers a connected client)
+L_token(ev) == (ev.what \in {"msg", "disconnect"} /\ ev.obj \in DOMAIN tokens) => ev.token = tokens[ev.obj]
 L_once(ev) == ev.what = "msg" => ev.rep = 0                                                     \* C04/C10: a message is handed to the handler at most once, whatever the handler does with it
 L_disc(ev) == ev.what = "disconnect" => Get(phase, ev.obj, "none") = "connected"             \* disconnect exactly once, only after connect
 L_aftershutdown(ev) == shutdownSeen => FALSE                                                  \* shutdown is the last handler event
@@ -119,8 +121,8 @@ RawClauses ==
     IF ev.ev = "rx" THEN {c \in {"A_blocked", "A_queued"} : ~CASE c = "A_blocked" -> A_blocked(ev) [] c = "A_queued" -> A_queued(ev)}
     ELSE IF ev.ev = "tx" THEN {c \in {"A_noamplify", "A_notblocked", "A_sealed"} : ~CASE c = "A_noamplify" -> A_noamplify(ev) [] c = "A_notblocked" -> A_notblocked(ev) [] c = "A_sealed" -> A_sealed(ev)}
     ELSE IF ev.ev = "h" THEN
-      {c \in {"L_thread", "L_connect", "L_msg", "L_once", "L_disc", "L_aftershutdown", "T_srvdrop"} :
-         ~CASE c = "L_thread" -> L_thread(ev) [] c = "L_connect" -> L_connect(ev) [] c = "L_msg" -> L_msg(ev) [] c = "L_once" -> L_once(ev) [] c = "L_disc" -> L_disc(ev)
+      {c \in {"L_thread", "L_connect", "L_msg", "L_token", "L_once", "L_disc", "L_aftershutdown", "T_srvdrop"} :
+         ~CASE c = "L_thread" -> L_thread(ev) [] c = "L_token" -> L_token(ev) [] c = "L_connect" -> L_connect(ev) [] c = "L_msg" -> L_msg(ev) [] c = "L_once" -> L_once(ev) [] c = "L_disc" -> L_disc(ev)
             [] c = "L_aftershutdown" -> L_aftershutdown(ev) [] c = "T_srvdrop" -> T_srvdrop(ev)}
     ELSE IF ev.ev = "tick" THEN
       {c \in {"A_alive", "L_pools", "T_srvdrops", "T_srvcadence", "T_clidrops", "A_echo", "T_tempdrop", "T_clicadence", "T_connfails"} :
@@ -145,7 +147,10 @@ Upd ==
   IF ev.ev = "rx" THEN
      /\ bin' = IF ev.blocked = 1 THEN bin ELSE Put(bin, ev.a, Get(bin, ev.a, 0) + ev.n)
      /\ LET opens == ev.c # 0 /\ ev.q = 1 /\ ev.ptype = 1 /\ ev.a \notin known          \* a client's hello (first copy or a replay of it) from an address the server does not know opens a session
-            s2 == IF opens THEN Put(sess, ev.a, ev.c) ELSE sess
+            \* a hello from ANOTHER client at an address whose session still exists (the old client is being dropped in this very tick and the hello waits in the
+            \* server's queue): remembered under the negated address until the end of the tick; it opens the session if the old one ends first (h disconnect below)
+            cand == ev.c # 0 /\ ev.q = 1 /\ ev.ptype = 1 /\ ev.a \in known /\ Get(sess, ev.a, 0) # ev.c
+            s2 == IF opens THEN Put(sess, ev.a, ev.c) ELSE IF cand THEN Put(sess, -ev.a, ev.c) ELSE sess
             mine == ev.c # 0 /\ ev.q = 1 /\ Get(s2, ev.a, 0) = ev.c IN
         /\ sess' = s2
         /\ lastHeard' = IF mine /\ ev.genuine = 1 THEN Put(lastHeard, ev.a, ev.now) ELSE lastHeard      \* (a replay may be dropped as a duplicate: it proves nothing about liveness)
@@ -165,7 +170,9 @@ Upd ==
              /\ everConn' = everConn \cup {ev.a} /\ lastTx' = Put(lastTx, ev.a, ev.now) /\ UNCHANGED <<proved, lastHeard, lastAny, sess, known>>
         ELSE IF ev.what = "disconnect"
         THEN /\ phase' = Put(phase, ev.obj, "gone") /\ objAt' = Del(objAt, ev.a) /\ tokens' = Del(tokens, ev.obj)
-             /\ proved' = proved \ {ev.a} /\ sess' = Del(sess, ev.a) /\ UNCHANGED <<everConn, lastTx, lastHeard, lastAny, known>>
+             /\ proved' = proved \ {ev.a}
+             /\ sess' = LET s1 == Del(sess, ev.a) IN IF (-ev.a) \in DOMAIN s1 THEN Put(Del(s1, -ev.a), ev.a, s1[-ev.a]) ELSE s1
+             /\ UNCHANGED <<everConn, lastTx, lastHeard, lastAny, known>>
         ELSE UNCHANGED <<phase, objAt, tokens, everConn, lastTx, proved, lastHeard, lastAny, sess, known>>
      /\ UNCHANGED <<bin, bout, stopAt, cstate, open, tempSince, lastCsend>>
   ELSE IF ev.ev = "cstat" THEN
